@@ -97,8 +97,8 @@ let handle kind c =
     let nth = next_int c in
     let cfgs = List.init nth (fun _ ->
         let s = next_z c in let ns = next_z c in let on = next_bool c in
-        let ap = next_bool c in let a = next_z c in
-        { u_start = (s, ns); u_on = on; u_asof = (if ap then Some a else None); u_dir = dirp }) in
+        let ap = next_bool c in let a = next_z c in let zone = next_z c in
+        { u_start = (s, ns); u_on = on; u_asof = (if ap then Some a else None); u_dir = dirp; u_zone = zone }) in
     let names = Array.of_list (next_list c (fun c -> string_of_bytes (next_bytes c))) in
     let descs = Array.of_list (next_list c (fun c ->
         match next c with
